@@ -10,7 +10,11 @@
 //!  2. re-encoding the decoded object reproduces the bytes;
 //!  3. every row of the hand-written accessor table of the type (`c05_tab`)
 //!     gives the same answer on the built value and on its decoded twin, and
-//!     panics on neither.
+//!     panics on neither;
+//!  4. every structural and leaf encoder of both values, streamed into sinks
+//!     that take less than offered, answer `Interrupted`, or refuse
+//!     (`c05_sink`, called from `c05_tab::compare`), either delivers exactly
+//!     the octets of the object or does not report `Ok(())`.
 //!
 //! Nothing else is demanded. Answers are additionally compared with the
 //! builder inputs where the mapping is unambiguous; a difference there is
@@ -26,6 +30,8 @@ pub mod c05_tab;
 pub mod c05_foreign;
 #[path = "c05_reissue.rs"]
 pub mod c05_reissue;
+#[path = "c05_sink.rs"]
+pub mod c05_sink;
 
 use self::c05_gen as gen;
 use self::c05_gen::ResShape;
@@ -1331,4 +1337,5 @@ pub fn run(ctx: &mut Ctx) {
         ctx.obs(&format!("objects:{}", kind), 1);
     }
     ctx.obs("signatures_made", env.pool.signatures.get());
+    c05_sink::finish(ctx);
 }
